@@ -607,13 +607,28 @@ func cmdC03Gen(args []string) {
 	h, hany := m.Wrap(okHandler), anyMW.Wrap(okHandler)
 	var evals, members, drift, f4 int
 	var violations, drifts []map[string]any
+	var panics []string
 	var samples []any
 	for i, c := range all {
 		o := fromCodes(c.B)
-		act, pf := originAllowedByMiddleware(h, o)
-		w := newRec()
-		hany.ServeHTTP(w, newReq("OPTIONS", http.Header{"Origin": {o}, "Access-Control-Request-Method": {"GET"}}))
-		lenient := w.status >= 200 && w.status < 300
+		var act, pf, lenient, panicked bool
+		func() {
+			defer func() {
+				if p := recover(); p != nil {
+					panicked = true
+					if len(panics) < 20 {
+						panics = append(panics, fmt.Sprintf("Origin %q: %v", o, p))
+					}
+				}
+			}()
+			act, pf = originAllowedByMiddleware(h, o)
+			w := newRec()
+			hany.ServeHTTP(w, newReq("OPTIONS", http.Header{"Origin": {o}, "Access-Control-Request-Method": {"GET"}}))
+			lenient = w.status >= 200 && w.status < 300
+		}()
+		if panicked {
+			continue
+		}
 		evals++
 		if act {
 			members++
@@ -637,5 +652,5 @@ func cmdC03Gen(args []string) {
 		}
 	}
 	writeJSON(*out, map[string]any{"cases": len(all), "evaluations": evals, "members": members, "f4_instances": f4, "drift": drift,
-		"drifts": drifts, "violations": violations, "samples": samples})
+		"drifts": drifts, "violations": violations, "samples": samples, "panics": panics})
 }
